@@ -116,6 +116,8 @@ def _cfg_line(rng, shape):
         mi, bw, bl = rng.choice([(1, 4, 2), (1, 5, 3), (2, 10, 3), (1, 10, 4), (1, 3, 2)])
     elif shape == "lockout":
         mi, bw, bl = rng.choice([(1, 1, 1), (15, 120, 4), (5, 5, 2), (1, 300, 50)])
+    elif shape == "relock":
+        mi, bw, bl = rng.choice([(1, 1, 1), (1, 1, 1), (1, 300, 50), (15, 120, 4), (5, 5, 2)])
     elif rng.random() < 0.25:
         mi, bw, bl = rng.choice([0, 1, 2, 5, 30, 200, 3599, 3600, 3601, 10**5]), rng.choice([0, 1, 2, 7, 60, 3600, 3601, 10**6]), rng.choice([0, 1, 2, 3, 10])
     else:
@@ -131,7 +133,7 @@ def _sanitised(mi, bw, bl):
 
 
 def gen_case(rng, big=False) -> Case:
-    shape = rng.choice(["mixed", "mixed", "steady", "burst", "lockout", "lockout", "invalid-kinds", "huge", "cfgonly"])
+    shape = rng.choice(["mixed", "mixed", "steady", "burst", "lockout", "lockout", "relock", "relock", "invalid-kinds", "huge", "cfgonly"])
     if shape == "cfgonly":
         ops = []
         for _ in range(rng.randint(1, 4)):
@@ -141,6 +143,8 @@ def gen_case(rng, big=False) -> Case:
     line, (rmi, rbw, rbl, diff) = _cfg_line(rng, shape)
     mi, bw, bl = _sanitised(rmi, rbw, rbl)
     ops = [line]
+    if shape in ("mixed", "steady", "invalid-kinds") and rng.random() < 0.25:
+        ops.append(f"hold {rng.choice(['c1', 'c2'])}")      # the node holds a chunk: announces must not re-key it
     npeers = rng.choice([1, 2, 3])
     peers = [f"p{i+1}" for i in range(npeers)]
     chunks = ["c1", "c2"][: rng.choice([1, 2])]
@@ -219,6 +223,52 @@ def gen_case(rng, big=False) -> Case:
                 else:
                     adv_to_edge(p)
                 ann(p, "-" if rng.random() < 0.8 else bad_flags())
+    elif shape == "relock":
+        # second and third lockout cycles: lock, let the lockout run out (with or without an accepted announce in
+        # between, with rejections straddling the expiry), three fresh rejections, then probe with valid announces
+        def three_rejections(p):
+            gaps = rng.choice([[0, 0], [1, 1], [S, S], [30 * S, 30 * S], [60 * S, 60 * S], [119 * S, S], [60 * S, 60 * S - 1],
+                               [120 * S, 0], [0, 120 * S], [100 * S, 20 * S + 1]])
+            ann(p, bad_flags())
+            for g in gaps:
+                adv(g)
+                if rng.random() < 0.2 and len(peers) > 1:
+                    q = rng.choice([x for x in peers if x != p])
+                    ann(q, "-" if rng.random() < 0.6 else bad_flags())
+                ann(p, bad_flags())
+            return now                                    # time of the third rejection
+
+        p = peers[0]
+        cycles = rng.choice([2, 2, 3])
+        for c in range(cycles):
+            t3 = three_rejections(p)
+            if c == cycles - 1:
+                break
+            # run the lockout out: land at / around its expiry
+            expiry = t3 + 180 * S
+            style = rng.choice(["past", "past", "edge", "straddle", "accepted", "accepted-late"])
+            if style == "past":
+                adv(expiry - now + rng.choice([0, 1, S, 50 * S, 400 * S]))
+            elif style == "edge":
+                adv(expiry - now + rng.choice([-1, 0, 1]))
+            elif style == "straddle":
+                adv(expiry - now - 1)
+                ann(p, bad_flags())                       # still locked: not counted
+                adv(rng.choice([1, 1, 2]))
+            elif style == "accepted":
+                adv(expiry - now + rng.choice([0, 1, S]))
+                ann(p)                                    # accepted: clears the record
+                adv(rng.choice([mi * S, mi * S + 1, 20 * S]))
+            else:
+                adv(expiry - now + rng.choice([0, S]))
+                if len(peers) > 1:
+                    ann(peers[1])                         # somebody else is accepted, p is not
+                adv(rng.choice([0, S, 200 * S]))
+        # probe: the peer must be locked for 180 s after the last third rejection
+        for _ in range(rng.randint(1, 4)):
+            adv(rng.choice([0, 1, S, mi * S, 60 * S, 90 * S, max(0, t3 + 180 * S - now - 1), max(0, t3 + 180 * S - now),
+                            max(0, t3 + 180 * S - now + 1)]))
+            ann(rng.choice(peers) if rng.random() < 0.25 else p, "-" if rng.random() < 0.85 else bad_flags())
     elif shape == "invalid-kinds":
         for k in rng.sample(INVALID, len(INVALID)):
             p = rng.choice(peers)
@@ -248,8 +298,8 @@ def generate(ctx, budget):
 def nontrivial(r: CaseResult) -> bool:
     """throttle rule of DESIGN §9: at least one accept and one refusal"""
     anns = [o for op, o in zip(r.case.ops, r.impl) if op.startswith("ann ")]
-    acc = [o for o in anns if "chg=" in o and not o.endswith("chg=0000")]
-    rej = [o for o in anns if o.endswith("chg=0000")]
+    acc = [o for o in anns if " chg=" in o and " chg=0000" not in o]
+    rej = [o for o in anns if " chg=0000" in o]
     return bool(acc) and bool(rej)
 
 
@@ -275,7 +325,7 @@ def spec() -> Spec:
         signature=signature,
         budget={"quick": 550, "thorough": 7000},
         search_budget={"quick": 2500, "thorough": 20000},
-        rule="timed announce histories from 1-3 peers over 1-2 chunks against a real Node under the virtual clock; throttle "
+        rule="timed announce histories (incl. second and third lockout cycles of one peer, with rejections straddling the lockout expiry) from 1-3 peers over 1-2 chunks against a real Node under the virtual clock; throttle "
              "configurations incl. zero, negative, interval > window, > 1 h and values whose nanosecond conversion overflows; every "
              "invalidity kind separately and in pairs; advances aimed at min-interval, window, 120 s and 180 s edges (-1 ns, 0, +1 ns); "
              "distinct = sha256 of the op list; non-trivial = at least one announce changed state and one was refused",
